@@ -60,16 +60,25 @@ def _limits():
 
 
 def _run(cmd, cwd, timeout):
+    """Run in its own process group, so that on a timeout the whole tree (cargo, the test binary of a
+    native enumeration that spins forever on a broken tree, cbmc) is killed, not just the direct child."""
+    import signal
     t0 = time.time()
+    p = subprocess.Popen(cmd, cwd=cwd, env=_env(), stdout=subprocess.PIPE, stderr=subprocess.STDOUT, text=True,
+                         errors="replace", preexec_fn=_limits, start_new_session=True)
     try:
-        p = subprocess.run(cmd, cwd=cwd, env=_env(), stdout=subprocess.PIPE, stderr=subprocess.STDOUT, text=True,
-                           errors="replace", timeout=timeout, preexec_fn=_limits)
-        return p.returncode, p.stdout, time.time() - t0, False
-    except subprocess.TimeoutExpired as ex:
-        out = ex.stdout.decode(errors="replace") if isinstance(ex.stdout, bytes) else (ex.stdout or "")
-        # make sure no cbmc is left behind
-        subprocess.run("pkill -f 'cbmc .*%s' || true" % re.escape(target_dir()), shell=True)
-        return -9, out, time.time() - t0, True
+        out, _ = p.communicate(timeout=timeout)
+        return p.returncode, out, time.time() - t0, False
+    except subprocess.TimeoutExpired:
+        try:
+            os.killpg(p.pid, signal.SIGKILL)
+        except ProcessLookupError:
+            pass
+        try:
+            out, _ = p.communicate(timeout=30)
+        except Exception:
+            out = ""
+        return -9, out or "", time.time() - t0, True
 
 
 def hname(h):
